@@ -42,7 +42,7 @@ LEVEL_TEXT = ("Every member of the three finite families is executed on the impl
               "files written by numpy/astropy/plain text writers and the returned arrays are compared with the numbers "
               "the file text denotes; the placement rule is compared pixel by pixel with a 10-line reference for all "
               "30 976 (input shape, detector shape, offset) combinations and all 1 280 keyword combinations; all "
-              "histories up to depth 4 over 9-10 operations are replayed in a fresh directory and every load is "
+              "histories up to depth 4 (thorough: 5) over 9-10 operations are replayed in a fresh directory and every load is "
               "compared with the content of the most recent write.")
 LEVEL_NOTE = ("Bounded: shapes <= 4x4, offsets in -5..5, value palette of 5 text kinds and 6 binary dtypes, histories of "
               "depth <= 4 on one path (plus a fixed second file for the observation). Trusted: numpy.save, "
@@ -604,13 +604,12 @@ class HistModel:
 
 def _hist_shards(tier, seed):
     exts = [".npy"] if tier == "quick" else [".npy", ".fits", ".txt"]
-    depth = 4
     out = []
     for ext in exts:
         m = HistModel(ext, tier)
         out.append({"part": "hist", "ext": ext, "tier": tier, "seed": seed, "prefix": [], "depth": 1})
         for op in m._ops:
-            d = depth if (ext == ".npy" or tier == "quick") else 3
+            d = 4 if tier == "quick" else (5 if ext == ".npy" else 4)
             out.append({"part": "hist", "ext": ext, "tier": tier, "seed": seed, "prefix": [op], "depth": d - 1})
     return out
 
@@ -660,6 +659,6 @@ def coverage(tier, seed, agg):
     cov["bounds"] = {"fmt_shapes": FMT_SHAPES, "text_kinds": list(TEXT_KINDS), "binary_dtypes": list(BIN_DTYPES),
                      "delimiters": list(SEPS), "placement": "input 1..4 x 1..4, detector 1..4 x 1..4, offsets -5..5 "
                      "(route fit: all 30976 + 1280 keyword cases; other routes: see cases)",
-                     "histories": "depth 4 (.npy), depth 3 (.fits/.txt, thorough only)"}
+                     "histories": "quick: depth 4 (.npy); thorough: depth 5 (.npy), depth 4 (.fits, .txt)"}
     cov["hist_states_note"] = "hist_states is summed over shards (one BFS per first operation)"
     return cov
